@@ -21,7 +21,8 @@ ty = z3.Function("ty", V, z3.IntSort())
 kind = z3.Function("kind", V, z3.IntSort())        # 0 finite, 1 nan, 2 +inf, 3 -inf
 rv = z3.Function("rv", V, z3.RealSort())
 truthy = z3.Function("truthy", V, z3.BoolSort())
-tup = z3.Function("tup", V, SeqV)                   # items of a tuple / immutable list view
+tlen = z3.Function("tlen", V, z3.IntSort())          # length of a tuple / immutable list view
+titem = z3.Function("titem", V, z3.IntSort(), V)   # its items (EUF + LIA: no sequence theory needed)
 is_callable = z3.Function("is_callable", V, z3.BoolSort())
 dord = z3.Function("dord", V, z3.IntSort())         # microseconds ordinal of date/datetime
 isinst = z3.Function("isinst", V, V, z3.BoolSort())  # isinstance with a symbolic class
@@ -41,9 +42,9 @@ PARENT = {"bool": "int", "datetime": "date", "OrderedDict": "dict", "ListProxy":
 NUMERIC = ["bool", "int", "float", "Fraction", "Decimal"]
 # abstract classes → member tags
 ABSTRACT = {
-    "Number": NUMERIC, "numbers.Number": NUMERIC,
-    "Real": ["bool", "int", "float", "Fraction"], "numbers.Real": ["bool", "int", "float", "Fraction"],
-    "Integral": ["bool", "int"], "numbers.Integral": ["bool", "int"],
+    "numbers.Number": NUMERIC,
+    "numbers.Real": ["bool", "int", "float", "Fraction"],
+    "numbers.Integral": ["bool", "int"],
     "object": TYPES,
     "_dt_types": ["date", "datetime"], "dt_types": ["date", "datetime"],
     "_int_types": ["bool", "int"], "int_types": ["bool", "int"],
@@ -228,7 +229,8 @@ class Universe:
             ax.append(z3.Implies(ty(t) == TAG[nm], z3.Not(is_callable(t))))
         ax.append(z3.Implies(z3.Or(ty(t) == TAG["function"], ty(t) == TAG["type"]), is_callable(t)))
         ax.append(slen(t) >= 0)
-        ax.append(z3.Implies(ty(t) == TAG["tuple"], slen(t) == z3.Length(tup(t))))
+        ax.append(tlen(t) >= 0)
+        ax.append(z3.Implies(z3.Or(ty(t) == TAG["tuple"], ty(t) == TAG["list"]), slen(t) == tlen(t)))
         ax.append(z3.Implies(ty(t) == TAG["str"], slen(t) == z3.Length(strv(t))))
 
     def truthy_def(self, t):
